@@ -384,6 +384,17 @@ def celltype_cases(rng, n):
                 b["cells"].reverse()
             out.append(({"k": "E", "lm": a, "ragged": True}, {"k": "E", "lm": b, "ragged": True},
                         ["celltypes-ragged-polygon", "ragged-" + how, "pair-EE"], PROTOCOLS[(i + len(how)) % len(PROTOCOLS)]))
+    # ragged polygons whose cell BOUNDARIES differ while the corners, read one cell after the other, give the same index
+    # sequence: quad(0 1 2 3) + triangle(4 5 6) against triangle(0 1 2) + quad(3 4 5 6) — same points, same number of cells,
+    # same total number of corners, different cells
+    pts = [[float(x), float(y)] for y in range(2) for x in range(4)]
+    for i, (ra, rb) in enumerate(((([0, 1, 2, 3], [4, 5, 6]), ([0, 1, 2], [3, 4, 5, 6])),
+                                  (([0, 1, 2], [3, 4, 5, 6, 7]), ([0, 1, 2, 3], [4, 5, 6, 7])),
+                                  (([0, 1, 2, 3, 4], [5, 6, 7]), ([0, 1, 2], [3, 4, 5, 6, 7])))):
+        a = {"dim": 2, "points": copy.deepcopy(pts), "cells": [["POLYGON", [list(r) for r in ra]]], "pf": [], "cf": []}
+        b = {"dim": 2, "points": copy.deepcopy(pts), "cells": [["POLYGON", [list(r) for r in rb]]], "pf": [], "cf": []}
+        out.append(({"k": "E", "lm": a, "ragged": True}, {"k": "E", "lm": b, "ragged": True},
+                    ["celltypes-ragged-polygon", "ragged-boundary-shifted", "pair-EE"], PROTOCOLS[i % len(PROTOCOLS)]))
     return out
 
 
